@@ -1284,8 +1284,33 @@ def r_worklist(ctx, rule='Q-WORKLIST'):
                       'in `%s` buckets that became over-full while inserting the remainder are not put back on the worklist (they would stay above the capacity)' % f.path)
             # the node fetched is the examined id; the rebuilt subtree is remapped onto it
             rmp = [c for c in f.calls() if c.callee == 'parallel::TmpNodes::<DE>::remap']
-            okm = bool(rmp) and paths.mentions_call(rmp[0].arg_term(2), sel.bb)
+            def is_popped(e):
+                t = strip(e)
+                while t[0] in ('field', 'downcast', 'cast', 'ref', 'deref'):
+                    t = strip(t[2] if t[0] == 'cast' else t[1])
+                return t[0] == 'call' and t[3] == sel.bb
+            okm = bool(rmp) and is_popped(rmp[0].arg_term(2)) and not is_popped(rmp[0].arg_term(1))
             ctx.check(okm, rule, f.path + '/remap-onto-bucket', sel.loc(), 'the new subtree root is remapped onto the examined bucket id', 'the subtree built for an over-full bucket is not stored under that bucket\'s id: the parent would keep pointing to the old bucket')
+            # the remainder is re-inserted below the id the subtree was stored under (the examined bucket id), not below the
+            # temporary root id the remap replaced (never stored)
+            for x in f.calls():
+                if not (x.callee.startswith('writer::Writer') and x.bb in f.reachable(sel.target)):
+                    continue
+                g = F.fn(x.callee)
+                if g is None:
+                    continue
+                for i in range(1, g.arg_count + 1):
+                    ty = g.local_ty(i)
+                    if ty.replace(' ', '') in ('&[u32]', "&'_[u32]") or (ty.startswith('&') and ty.endswith('[u32]')):
+                        if i - 1 >= len(x.args):
+                            continue
+                        at = x.arg_term(i - 1)
+                        elems = [e for sx in walk(at) if sx[0] == 'array' for e in sx[1]]
+                        if not elems:
+                            continue
+                        okr = all(is_popped(e) for e in elems)
+                        ctx.check(okr, rule, f.path + '/remainder-root', x.loc(), 'the remainder is inserted below the examined bucket id (where the new subtree was stored)',
+                                  'in `%s` the items that did not fit in the batch are re-inserted below an id other than the examined bucket\'s (the subtree was stored under the bucket id; the temporary root id is never written)' % f.path)
 
 
 # --------------------------------------------------------------------------- worklist progress (C14)
@@ -1550,7 +1575,8 @@ def r_capacity(ctx, rule='R-CAPACITY'):
             # (iii) shrinking rewrite of an existing bucket
             if why is None:
                 muts = [short(x.callee) for x in f.calls() if x.args and x.callee.endswith(('sub_assign', 'bitor_assign')) and any(paths.mentions_call(x.arg_term(0), st) for st in bm_sites)]
-                if muts == ['sub_assign']:
+                grows = [x for x in walk(bm) if x[0] == 'call' and x[1].endswith(('BitOr::bitor', 'BitOr>::bitor', '::union', '::insert', '::push', '::extend', 'BitXor::bitxor', '::insert_range'))]
+                if muts == ['sub_assign'] and not grows:
                     why = 'subset of an existing bucket (removal only)'
             # (iv) the whole function is only called under the capacity test of the bitmap it receives
             if why is None and be is not None:
@@ -1563,6 +1589,15 @@ def r_capacity(ctx, rule='R-CAPACITY'):
                                     why = 'the function is only called when its bitmap fits in one bucket'
             ctx.check(why is not None, rule, key, c.loc(), why or '',
                       'in `%s` a bucket is written without the capacity gate: it is neither under `fit_in_descendant(len)` of its own bitmap, nor queued for re-splitting when it does not fit, nor a shrunk copy of an existing bucket -- buckets larger than split_after could stay in the forest' % f.path)
+        # every id put on an over-full worklist handed in by the caller (`&mut RoaringBitmap` parameter) is the id of a bucket
+        # this function writes: an item id or a stale id on the worklist is later fetched as a tree node
+        for x in f.calls():
+            if x.callee.endswith('RoaringBitmap>::insert') and len(x.args) == 2:
+                r0 = root(x.arg_term(0))
+                if r0[0] == 'arg' and f.local_ty(r0[1]).replace(' ', '') in ('&mutroaring::RoaringBitmap', '&mutRoaringBitmap') and sites:
+                    okw = any(same(x.arg_term(1), idt) for c, bm, idt in sites)
+                    ctx.check(okw, rule, '%s/worklist-insert/%s' % (f.path, f.local_name(r0[1]) or r0[1]), x.loc(), 'the id queued is the id of a bucket written here',
+                              'in `%s` the id put on the over-full worklist `%s` is not the id under which a bucket is written: the re-splitting step would fetch a node that is not that bucket' % (f.path, f.local_name(r0[1])))
     ctx.floor(rule, 'bucket writes', n, 6)
 
 
